@@ -16,6 +16,7 @@ C12 — property theorems about the state machine `CBV.C12` (Model/C12.lean), fo
 * `T_C12_wf_run`          the representation invariant holds along every legal history.
 -/
 import CBV.Lemmas.C12Tie
+import CBV.Lemmas.C12X
 import CBV.Gen.TC12
 
 namespace CBV.C12
@@ -486,6 +487,69 @@ theorem T_C12_write_failure_recover (m : Mesh) :
     rw [write_state_unassembled _ h' (canon_not_assembled _ (canon_RT m) h')]
     exact RT_idem m
 
+/-! ### an exception inside `assemble()` (round 6c) -/
+
+/-- Without edge data `factory.create` raises on, the exception-aware functions the driver runs are the plain ones all
+    theorems above are about: `assemble` never raises, `write` leaves the same state. -/
+theorem T_C12_stepX_ok (m : Mesh) (h : ∀ o ∈ m.depot, NoInvalid o) :
+    assembleX m = (assemble m, false) ∧ stepX m .assemble = step m .assemble ∧ stepX m .write = step m .write := by
+  have ha := assembleX_ok m h
+  refine ⟨ha, by simp [stepX, step, ha], ?_⟩
+  simp only [stepX, step, writeX, write, ha]
+  by_cases hs : isAssembled m = true
+  · by_cases hd : (gradeBlocks m).lists.blocks.all Block.isDefined = true <;> simp [hs, hd, -List.all_eq_true]
+  · by_cases hb : isAssembled (assemble m) = true
+    · by_cases hd : (gradeBlocks (assemble m)).lists.blocks.all Block.isDefined = true <;>
+        simp [hs, hb, hd, -List.all_eq_true]
+    · simp [hs, hb]
+
+/-- What an `assemble()` that is left by an exception leaves behind: the lists hold everything the live operations before
+    the failing one (`pre`) contributed — reached without an exception —, plus the vertices of the failing operation `b` and
+    the edges of its beams before the failing one; blocks, `assembled`, patches and faces are those of `pre` only, depot and
+    all flags are untouched; and the mesh **counts as assembled** (`is_assembled` looks at the vertex list), so a following
+    `write()` does not assemble again and writes this partial mesh. -/
+theorem T_C12_exception_state (m p : Mesh) (h : assembleX m = (p, true)) :
+    ∃ pre b post P, m.depot = pre ++ b :: post ∧ b.id ∉ m.deleted ∧
+      assembleLoopX (slavePatches m) m.deleted pre m.lists = (P, false) ∧
+      p = { m with lists := { P with verts := (addVerts (slavePatches m) b P.verts).1,
+                                     edges := (addEdgesX P.edges b (addVerts (slavePatches m) b P.verts).2).1 } } ∧
+      isAssembled p = true := by
+  unfold assembleX at h
+  have h1 := (Prod.ext_iff.mp h).1
+  have h2 := (Prod.ext_iff.mp h).2
+  simp only at h1 h2
+  obtain ⟨pre, b, post, P, e, hb, hp, hL, _⟩ :=
+    assembleLoopX_raised (slavePatches m) m.deleted m.depot m.lists _ (Prod.ext rfl h2)
+  refine ⟨pre, b, post, P, e, hb, hp, ?_, ?_⟩
+  · rw [← h1]; exact congrArg (fun L => ({ m with lists := L } : Mesh)) hL
+  · rw [← h1]
+    obtain ⟨ext, _, h8, hlt, _⟩ := addVerts_spec (slavePatches m) b P.verts
+    show (!(assembleLoopX (slavePatches m) m.deleted m.depot m.lists).1.verts.isEmpty) = true
+    have hv' := congrArg Lists.verts hL
+    simp only at hv'
+    rw [hv']
+    cases hv : (addVerts (slavePatches m) b P.verts).1 with
+    | nil =>
+      cases hi : (addVerts (slavePatches m) b P.verts).2 with
+      | nil => rw [hi] at h8; simp at h8
+      | cons i _ =>
+        have := hlt i (by rw [hi]; simp)
+        rw [hv] at this; simp at this
+    | cons _ _ => rfl
+
+/-- Recovery.  Let `p` be what an interrupted assembly of `c` left behind as far as `clear(); assemble()` can see it: same
+    depot, deleted set and merged pairs, and a patch table that received the items `X` of the operations assembled before
+    the exception.  If the new assembly contributes those items again first (the operations before the failing one are
+    still there, e.g. the failing operation was deleted or repaired), `clear(); assemble()` builds exactly the lists it
+    would have built had the interrupted assembly never happened: leftovers are not visible afterwards. -/
+theorem T_C12_exception_recover (p c : Mesh) (hd : p.depot = c.depot) (hdel : p.deleted = c.deleted)
+    (hm : p.merged = c.merged) (X S : List (String × List Nat))
+    (hp : p.lists.patches = addItems c.lists.patches X)
+    (hi : allItems (slavePatches c) (liveOps c) [] = X ++ S) : (RT p).lists = (RT c).lists := by
+  have hl : liveOps p = liveOps c := by simp [liveOps, hd, hdel]
+  have hs : slavePatches p = slavePatches c := by simp [slavePatches, hm]
+  rw [RT_lists, RT_lists, hl, hs, hp, hi, recover_patches]
+
 /-! ### the model functions are the statements of the current source (regenerated by `cbv/tables/c12.py`) -/
 
 /-- `Mesh.clear` of the source — its `self.<list>.clear()` statements in order, each with the statements of that list's
@@ -666,5 +730,34 @@ example : written ({} : Mesh) = .error .notAssembled ∧
     isAssembled (run {} [.add { exOp 0 [0, 1, 2, 3, 4, 5, 6, 7] none with chops := [[], [⟨"1.0", 3⟩], [⟨"1.0", 2⟩]] }, .write])
       = true :=
   ⟨(failsWith_iff _ _).mp (by decide +kernel), (failsWith_iff _ _).mp (by decide +kernel), by decide +kernel⟩
+
+/-! ### non-vacuity of the round-6c theorems -/
+
+/-- the second of three boxes has invalid data on the first edge of its top face -/
+def exBad : List Step :=
+  [.add (exOp 0 [0, 1, 2, 3, 4, 5, 6, 7] (some "inlet")),
+   .add { exOp 1 [1, 8, 9, 2, 5, 10, 11, 6] (some "wall") with topEdges := [.invalid, .line, .line, .line] },
+   .add (exOp 2 [8, 12, 13, 9, 10, 14, 15, 11] (some "outlet"))]
+
+/-- hypothesis of `T_C12_exception_state`: the assembly raises; what is left: 12 vertices, the block of the first box only,
+    the mesh counts as assembled and `write()` writes one `hex`; after deleting the operation, `clear(); assemble()` gives the
+    lists of the mesh that was never assembled before (`T_C12_exception_recover`), with two blocks -/
+example :
+    let m := run {} exBad
+    let p := (assembleX m).1
+    (assembleX m).2 = true ∧ p.lists.verts.length = 12 ∧ p.lists.blocks.map (·.opId) = [0] ∧ p.lists.assembled = [0] ∧
+    isAssembled p = true ∧ (writeX p).1.lists.blocks.length = 1 ∧
+    (RT (delete p 1)).lists = (RT (delete m 1)).lists ∧ (RT (delete p 1)).lists.blocks.map (·.opId) = [0, 2] := by
+  decide +kernel
+
+/-- hypothesis of `T_C12_stepX_ok`: the operations of the first example history carry no invalid data -/
+example : ∀ o ∈ (run {} exHistory).depot, NoInvalid o := by
+  intro o ho
+  apply noInvalid_of_slots
+  have : (run {} exHistory).depot = [exOp 0 [0, 1, 2, 3, 4, 5, 6, 7] (some "inlet"), exOp 1 [1, 8, 9, 2, 5, 10, 11, 6] none] := by
+    decide +kernel
+  rw [this] at ho
+  simp only [List.mem_cons, List.not_mem_nil, or_false] at ho
+  rcases ho with rfl | rfl <;> decide
 
 end CBV.C12
